@@ -17,10 +17,38 @@ import (
 
 var credAtoms = []string{"user", "alice", "p@ss", "pässwörd", "ключ", "a,b", "x=y", "=2C", ",", "=", " ", "with space", "\t", "\x01", "\x7f", "Z", "0", "long-long-long-long-long-long-long-long-secret", "€uro", "😀"}
 
+// credentials whose base64 form is an SMTP command word in some spelling ("AB-" encodes to "QUIt"), the
+// lone "*" that cancels an exchange, and Latin-1 strings with a no-break space (PRECIS maps it to a blank)
+var specialCreds = func() []string {
+	out := []string{"*"}
+	for _, w := range []string{"QUIT", "RSET", "NOOP", "DATA", "EHLO", "HELO", "MAIL", "RCPT", "AUTH"} {
+		for mask := 0; mask < 16; mask++ {
+			b := []byte(w)
+			for i := range b {
+				if mask&(1<<i) != 0 {
+					b[i] |= 0x20
+				}
+			}
+			if d, err := base64.StdEncoding.DecodeString(string(b)); err == nil {
+				out = append(out, string(d))
+			}
+		}
+	}
+	return out
+}()
+
 func genCred(r *Rng, allowEmpty bool) string {
 	n := 1 + r.Intn(3)
 	if allowEmpty && r.Chance(5) {
 		return ""
+	}
+	if r.Chance(5) {
+		return specialCreds[r.Intn(len(specialCreds))]
+	}
+	if r.Chance(6) {
+		// strings the PRECIS OpaqueString profile changes although they are plain Latin-1 / look harmless:
+		// non-ASCII blanks become U+0020, compatibility forms stay, decomposed letters are composed
+		return []string{"pass\u00a0word", "caf\u00e9\u00a0bar", "\u00a0", "user\u00a0", "a\u2003b", "e\u0301t\u00e9", "\u00c5ngstr\u00f6m\u00a0", "\u3000wide"}[r.Intn(8)]
 	}
 	var sb strings.Builder
 	for i := 0; i < n; i++ {
@@ -367,6 +395,38 @@ func oracleLogs(c *Ctx, sc *DialScenario, run *DialRun) {
 			}
 			if inAuth && e.Code != 334 {
 				inAuth = false
+			}
+		}
+	}
+	// record by record: every line the client sends from the AUTH command to the end of the exchange (the
+	// responses, a cancelling "*", the QUIT after a refusal) is logged as the placeholder and as nothing else -
+	// whatever the line looks like (a response may spell a command word: base64("AB-") = "QUIt")
+	var crecs []string
+	for _, l := range run.Logs {
+		if strings.HasPrefix(l, "C ") {
+			crecs = append(crecs, l)
+		}
+	}
+	ci := 0
+	window, failed := false, false
+	for _, e := range run.Events {
+		switch e.Kind {
+		case "cmd":
+			if ci >= len(crecs) {
+				break
+			}
+			rec := crecs[ci]
+			ci++
+			if strings.HasPrefix(e.Line, "AUTH ") {
+				window = true
+			}
+			if (window || failed) && rec != "C <SMTP auth data redacted>" && e.Line != "RSET" && e.Line != "NOOP" {
+				c.Violate("c16-response-logged", fmt.Sprintf("a client line of the AUTH exchange is logged as %q instead of the placeholder", rec), sc)
+			}
+		case "reply":
+			if window && e.Code != 334 {
+				window = false
+				failed = e.Code >= 400
 			}
 		}
 	}
